@@ -2,7 +2,7 @@
 From Coq Require Import NArith Bool List.
 Import ListNotations.
 From XetModel Require Import Base.Codec Gen.ShardLayout Model.Merkle Model.Shard Model.Crash Proofs.SetOpProofs Proofs.SetOpSortedProofs.
-From XetModel Require Import Proofs.CodecProofs Proofs.ShardWholeProofs Proofs.ShardDedupWholeProofs Proofs.MergeProofs.
+From XetModel Require Import Proofs.CodecProofs Proofs.ShardWholeProofs Proofs.ShardDedupWholeProofs Proofs.MergeProofs Proofs.MergeAllProofs.
 Open Scope N_scope.
 
 (* keys are the four u64 words the code orders and compares by *)
@@ -74,6 +74,19 @@ Example C10_merge_example :
     /\ shard_recs m (FileKey (fkey wx_f1)) /\ shard_recs m (FileKey (fkey wx_f2)) /\ ~ shard_recs m (FileKey (hwords (repeat 3 32%nat))).
 Proof. exact merge_example. Qed.
 
+
+(* a whole consolidation group: merge_all folds the merge step over the shards of the group; on serialized shards the result is
+   the serialization of the iterated union (every intermediate result a well-formed shard below 4 GiB: UnionsOk), and it
+   covers every input *)
+Theorem C10_merge_all_of_serialized_shards : forall (g : list (fname * sshard)) acc, ss_ok acc -> Forall (fun x => ss_ok (snd x)) g -> UnionsOk acc (map snd g) ->
+  merge_all (ss_bytes acc) (map (fun x => (fst x, ss_bytes (snd x))) g) = Some (ss_bytes (ss_unions acc (map snd g))).
+Proof. exact merge_all_serialized. Qed.
+Theorem C10_merge_all_covers_inputs : forall (g : list (fname * sshard)) acc m, ss_ok acc -> Forall (fun x => ss_ok (snd x)) g -> UnionsOk acc (map snd g) ->
+  ss_ok (ss_unions acc (map snd g)) ->
+  merge_all (ss_bytes acc) (map (fun x => (fst x, ss_bytes (snd x))) g) = Some m ->
+  forall x, shard_recs (ss_bytes acc) x \/ (exists n s, In (n, s) g /\ shard_recs (ss_bytes s) x) -> shard_recs m x.
+Proof. exact merge_all_covers_inputs. Qed.
+
 Print Assumptions C10_union_file_keys.
 Print Assumptions C10_union_file_records.
 Print Assumptions C10_difference_files_exact.
@@ -82,3 +95,4 @@ Print Assumptions C10_difference_sorted.
 Print Assumptions C10_merge_of_serialized_shards.
 Print Assumptions C10_merge_covers_inputs.
 Print Assumptions C10_merge_invents_nothing.
+Print Assumptions C10_merge_all_covers_inputs.
